@@ -1457,6 +1457,14 @@ func (u *Unit) callAssertions(st *State, fr *Frame, site ssa.Instruction, desigs
 			env.vars["recv"] = EVal{T: args[0], Ty: argTypeAt(site, 0)}
 		}
 		g, err := env.EvalBool(cl.Expr)
+		if err != nil && env.fr != fr && !u.missingCallIsViolation(err) {
+			// a local the clause names may have moved into the helper together with
+			// the call: then the helper's own frame knows it
+			env.fr = fr
+			if g2, err2 := env.EvalBool(cl.Expr); err2 == nil {
+				g, err = g2, nil
+			}
+		}
 		if err != nil {
 			if u.missingCallIsViolation(err) {
 				g = False // the clause speaks about a call this path no longer makes
